@@ -75,3 +75,46 @@ def _v10(repo, mod):
     fn = repo.func(M, "__is_method_defined_in_class")
     r = fn.body[-1]
     return replace_node(mod, r, "owner = get_class_that_defined_method(method)\n    return class_ == owner")
+
+
+@variant("C27", "lambda-visibility-on-placeholder-name", M, "C27.visibility", "a lambda is only checked as <lambda> (the repaired defect)")
+def _v20(repo, mod):
+    fn = repo.func(M, "__analyse_function")
+    s = find_stmt(fn, lambda s: isinstance(s, ast.If) and "__should_skip_by_visibility(lambda_assigned_name" in norm(s.test))
+    return delete_stmt(mod, s)
+
+
+@variant("C27", "mangled-pattern-without-underscores", M, "C27.visibility", "class names with an underscore are not recognised as manglers and the owner is not asked (the repaired defect)")
+def _v21(repo, mod):
+    fn = repo.func(M, "__is_name_mangled")
+    r = [s for s in fn.body if isinstance(s, ast.Return)][-1]
+    return replace_node(mod, r.value, 'name.split("__")[0].count("_") == 1')
+
+
+@variant("C27", "functions-treated-as-mangled", M, "C27.visibility", "names of module-level functions are matched against the mangling pattern (the repaired defect)")
+def _v22(repo, mod):
+    fn = repo.func(M, "__should_skip_by_visibility")
+    n = find_node(fn, lambda n: isinstance(n, ast.BoolOp) and isinstance(n.op, ast.And) and "owner is not None" in norm(n))
+    return replace_node(mod, n, "__is_name_mangled(name, owner)")
+
+
+@variant("C27", "owner-not-passed-for-methods", M, "C27.visibility", "__analyse_method calls the visibility test without the class")
+def _v23(repo, mod):
+    fn = repo.func(M, "__analyse_method")
+    c = find_node(fn, lambda n: isinstance(n, ast.Call) and norm(n.func) == "__should_skip_by_visibility")
+    kw = next(k for k in c.keywords if k.arg == "owner")
+    return replace_node(mod, kw.value, "None")
+
+
+@variant("C27", "protected-skips-dunder-free-private-only", M, "C27.visibility", "PROTECTED lets mangled names through")
+def _v24(repo, mod):
+    fn = repo.func(M, "__should_skip_by_visibility")
+    n = find_node(fn, lambda n: isinstance(n, ast.BoolOp) and isinstance(n.op, ast.And) and "owner is not None" in norm(n))
+    return replace_node(mod, n, "False")
+
+
+@variant("C27", "twin-visibility-as-if-chain", M, None, "the same table written as an if chain stays silent")
+def _v25(repo, mod):
+    fn = repo.func(M, "__should_skip_by_visibility")
+    m = find_stmt(fn, lambda s: isinstance(s, ast.Match))
+    return replace_node(mod, m, "visibility = config.configuration.element_visibility\n    if visibility == ElementVisibility.ALL:\n        return False\n    if visibility == ElementVisibility.PROTECTED:\n        return __is_private(name) or (owner is not None and __is_name_mangled(name, owner))\n    return __is_protected(name) or __is_private(name)")
